@@ -458,7 +458,8 @@ func rulesParseErrorContinues(c *Ctx, r *Report) {
 			obj := identObj(info, arg)
 			fromParse := false
 			for _, rhs := range defsOf(y.f, obj) {
-				if fo := calleeOfExpr(info, rhs); fo != nil && !c.isStreamFunc(fo) && fo.Pkg() == y.f.pkg.Types && fo.Type().(*types.Signature).Recv() == nil && fo.Type().(*types.Signature).Results().Len() == 2 && fo.Type().(*types.Signature).Params().Len() == 1 {
+				if fo := calleeOfExpr(info, rhs); fo != nil && !c.isStreamFunc(fo) && fo.Pkg() == y.f.pkg.Types && fo.Type().(*types.Signature).Recv() == nil && (fo.Type().(*types.Signature).Results().Len() == 2 && fo.Type().(*types.Signature).Params().Len() == 1 ||
+					fo.Type().(*types.Signature).Results().Len() == 1 && fo.Type().(*types.Signature).Params().Len() == 2) { // parseLine(line) (rec, err), or parseLine(line, rec) err
 					fromParse = true
 				}
 			}
